@@ -33,6 +33,9 @@ T_C06_AlwaysCompletes ==
   (Step /\ obs.e = "End" /\ obs.stopMs >= 0) => (obs.serverDone /\ (ToSet(obs.stops) \ ToSet(obs.dropped)) \subseteq ToSet(obs.resolved))
 \* ServerStop.C06_NoDispatchAfterCompletion: no service call starts after the Server future resolved
 T_C06_NoDispatchAfterCompletion == Step => ~obs.lateServed
+\* ServerStop.C06_NoDispatchAfterCompletion (serverDone => acc = "exited"): the accept thread - and with it the listening
+\* sockets - is gone when the completion is signalled: a connection attempt made after the Server future resolved is refused
+T_C06_NotListeningAfterCompletion == Step => ~obs.lateConnected
 
 TraceAccepted ==
   LET n == TLCGet("stats").diameter - 1 IN
